@@ -170,3 +170,11 @@ def full_build(prop=None, tags=None):
             info["props"] = check_props(prop)
     info["build_s"] = round(time.time() - t0, 2)
     return info
+
+
+def coqchk(prop, timeout=1800):
+    """Independent re-check of Props/<prop>.vo and everything it depends on (thorough tier).
+    Returns (ok, axioms_text)."""
+    rc, out = sh(f"timeout {timeout} coqchk -silent -o -Q theories PahoV PahoV.Props.{prop}", cwd=COQ, timeout=timeout + 60)
+    m = re.search(r"CONTEXT SUMMARY(.*)", out, re.S)
+    return rc == 0, (m.group(1).strip() if m else out[-2000:])
